@@ -111,7 +111,15 @@ async def check_string(ctx, s: str, cls: str = "replay"):
     rv = S.resolver_verdict(s)
     # 1. condition expression parser
     ctx.evaluation()
-    judge(ctx, "condition-parser", s, cv, capture(parse_condition_expression_to_tree, s))
+    first = capture(parse_condition_expression_to_tree, s)
+    judge(ctx, "condition-parser", s, cv, first)
+    if ctx.rng.random() < 0.15:
+        # the same string again (after whatever happened in between, a failure included): same verdict
+        ctx.count("repeated_calls")
+        again = capture(parse_condition_expression_to_tree, s)
+        judge(ctx, "condition-parser", s, cv, again)
+        if first[0] != again[0]:
+            ctx.violation("verdict-changes-on-repetition", f"condition-parser({s!r}): first call {describe(first)[:120]}, second call {describe(again)[:120]}")
     # 2. AHB expression parser: the condition part is only checked for its character set there, so only MUST_ACCEPT and the exception type are asserted
     ctx.evaluation()
     judge(ctx, "ahb-parser", s, av, capture(parse_ahb_expression_to_single_requirement_indicator_expressions, s), strict_reject=False)
